@@ -22,7 +22,9 @@ ASSUMPTIONS = ["exit status compared as a class (interpreter exits 1, executable
 
 
 def norm_out(o):
-    return [l for l in aldor.strip_tool_text(o.text).split("\n") if l.strip()]
+    """the program's own standard output: generated programs print nothing but '@ ' lines; everything else on the interpreter's stdout is
+    the compiler's (warnings with source excerpts, continuation lines, the post-mortem trace)"""
+    return [l for l in o.text.split("\n") if l.startswith("@ ")]
 
 
 def exc_lines(o):
